@@ -423,7 +423,7 @@ def run(ctx):
 
 
 MANIFEST = dict(
-    text='Decides, for every branch-condition valuation of every GDSII writer function, that the emitted record string lies in the format manual\'s grammar for that nonterminal (regular-language inclusion), that every record carries the specification\'s data type and fixed length (even lengths for strings), that every header buffer and multi-byte payload is converted to big-endian exactly once with the right width, and that announced and written payload sizes agree; by composition every file from Library::write_gds or gdswriter_init/write_cell*/close is a <stream>. On the reader side: every arm of read_gds/gds_info/gds_units/gds_timestamp reads the payload through the accessor of the record\'s data type, the pre-swap switch matches data types to widths, element-scoped state is reset per element, record errors are checked, and a PATH\'s continuation XY records are decoded like BOUNDARY XY records; the scratch array each PATH writer fills through element_center is emptied for every element; the AREF corners are origin + COLROW count x pitch with the counts exactly as written (exchanged before use in the rotated branch) and the reader divides by the same counts. That every legal stream decodes to the layout it encodes (BOX semantics, negative WIDTH, reflected AREF lattices ...) is not decided.',
+    text='Decides, for every branch-condition valuation of every GDSII writer function, that the emitted record string lies in the format manual\'s grammar for that nonterminal (regular-language inclusion), that every record carries the specification\'s data type and fixed length (even lengths for strings), that every header buffer and multi-byte payload is converted to big-endian exactly once with the right width, and that announced and written payload sizes agree; by composition every file from Library::write_gds or gdswriter_init/write_cell*/close is a <stream>. On the reader side: every arm of read_gds/gds_info/gds_units/gds_timestamp reads the payload through the accessor of the record\'s data type, the pre-swap switch matches data types to widths, element-scoped state is reset per element, record errors are checked, and a PATH\'s continuation XY records are decoded like BOUNDARY XY records; the scratch array each PATH writer fills through element_center is emptied for every element; the AREF corners are origin + COLROW count x pitch with the counts exactly as written (exchanged before use in the rotated branch) and the reader divides by the same counts. That every legal stream decodes to the layout it encodes (BOX semantics, negative WIDTH, reflected AREF lattices ...) is not decided. Also decided by interpreting the source (sa/minieval) on small records: the XY arm of read_gds re-loads a boundary split over several XY records completely and hands a path\'s first / continuation record to the spine as the format says.',
     note='Trusted: clang front end, gx, sa/gdsgrammar.py (abstract interpreter; anything it cannot interpret is reported as an issue), the record table and BNF transcribed from the GDSII Stream Format Manual 6.0 plus two named extensions (repeated XY, Raith records). Atoms are treated as independent (over-approximation: infeasible combinations are checked too).',
-    technique='abstract interpretation of writer functions into regular record languages (predicate-atom enumeration, buffer typestate) + DFA inclusion in the format grammar + table rules on the reader',
+    technique='abstract interpretation of writer functions into regular record languages (predicate-atom enumeration, buffer typestate) + DFA inclusion in the format grammar + table rules on the reader + interpretation of the XY arm on small records (sa/minieval)',
     design='§4 C03')
